@@ -1508,15 +1508,20 @@ func (dht *FullRT) findProvidersAsyncRoutine(ctx context.Context, key multihash.
 			logger.Debugf("got provider: %s", prov)
 			if psTryAdd(prov.ID) {
 				logger.Debugf("using provider: %s", prov)
+				// Hand the provider over until the search itself ends (caller gone,
+				// or enough providers found). ctx is the context of this one request,
+				// which execOnMany cancels as soon as enough of the other peers have
+				// answered: giving up on it here would drop providers of an answer
+				// that arrived in time, just because the consumer is slow.
 				select {
 				case peerOut <- *prov:
 					span.AddEvent("found provider", trace.WithAttributes(
 						attribute.Stringer("peer", prov.ID),
 						attribute.Stringer("from", p),
 					))
-				case <-ctx.Done():
+				case <-queryctx.Done():
 					logger.Debug("context timed out sending more providers")
-					return ctx.Err()
+					return queryctx.Err()
 				}
 			}
 			if !findAll && psSize() >= count {
